@@ -670,7 +670,8 @@ class Angular(object):
                 rng = (r_min, r_max, c) + rng[3:]
                 ranges.append(rng)
             return ranges
-        except TypeError:  # otherwise -- by radial coefficients
+        except (TypeError, IndexError):  # otherwise -- by radial coefficients
+            # (numbers raise TypeError, NumPy scalars raise IndexError on rng[:3])
             return np.outer(np.ravel(obj), self.c)
 
     __rmul__ = __mul__
